@@ -30,6 +30,26 @@ fn arg_after(args: &[String], name: &str) -> Option<String> {
     args.iter().position(|a| a == name).and_then(|i| args.get(i + 1)).cloned()
 }
 
+/// The operators a value property judges inside mixed histories / at cold start.
+fn own_ops(pid: &str) -> Option<(&'static str, &'static [&'static str])> {
+    match pid {
+        "C04" => Some(("c04.mixed-history", &[])),
+        "C05" => Some(("c05.mixed-history", &["if", "?:", "and", "or"])),
+        "C06" => Some(("c06.mixed-history", &["!", "!!", "if", "and", "filter", "some"])),
+        "C07" => Some(("c07.mixed-history", &["==", "!="])),
+        "C08" => Some(("c08.mixed-history", &["===", "!=="])),
+        "C09" => Some(("c09.mixed-history", &["<", "<=", ">", ">="])),
+        "C10" => Some(("c10.mixed-history", &["+", "-", "*", "/", "%", "min", "max"])),
+        "C11" => Some(("c11.mixed-history", &["var"])),
+        "C12" => Some(("c12.mixed-history", &["missing", "missing_some"])),
+        "C13" => Some(("c13.mixed-history", &["map", "filter", "reduce"])),
+        "C14" => Some(("c14.mixed-history", &["some"])),
+        "C15" => Some(("c15.mixed-history", &["in", "merge"])),
+        "C16" => Some(("c16.mixed-history", &["cat", "substr"])),
+        _ => None,
+    }
+}
+
 pub fn run_property(c: &mut ctx::Ctx) -> bool {
     match c.pid.as_str() {
         "C01" => props_c01::c01(c),
@@ -53,29 +73,14 @@ pub fn run_property(c: &mut ctx::Ctx) -> bool {
     }
     // every value property also judges its own operators inside mixed histories (other operators on
     // the same / look-alike operands before and after): see props_c17::semantic_key_histories
-    let own: Option<(&str, &[&str])> = match c.pid.as_str() {
-        "C04" => Some(("c04.mixed-history", &[])),
-        "C05" => Some(("c05.mixed-history", &["if", "?:", "and", "or"])),
-        "C06" => Some(("c06.mixed-history", &["!", "!!", "if", "and", "filter", "some"])),
-        "C07" => Some(("c07.mixed-history", &["==", "!="])),
-        "C08" => Some(("c08.mixed-history", &["===", "!=="])),
-        "C09" => Some(("c09.mixed-history", &["<", "<=", ">", ">="])),
-        "C10" => Some(("c10.mixed-history", &["+", "-", "*", "/", "%", "min", "max"])),
-        "C11" => Some(("c11.mixed-history", &["var"])),
-        "C12" => Some(("c12.mixed-history", &["missing", "missing_some"])),
-        "C13" => Some(("c13.mixed-history", &["map", "filter", "reduce"])),
-        "C14" => Some(("c14.mixed-history", &["some"])),
-        "C15" => Some(("c15.mixed-history", &["in", "merge"])),
-        "C16" => Some(("c16.mixed-history", &["cat", "substr"])),
-        _ => None,
-    };
+    let own = own_ops(&c.pid);
     if let Some((mon, ops)) = own {
         if !c.small {
             props_c17::semantic_key_histories(c, mon, ops);
         }
     }
     // ... and a sample of its own judged calls again, from 8 threads at once
-    if c.pid != "C01" && c.pid != "C17" && !c.small {
+    if c.pid != "C17" && !c.small {
         let mon = format!("{}.concurrent-replay", c.pid.to_lowercase());
         props_c17::concurrent_replay(c, &mon);
     }
@@ -127,6 +132,27 @@ fn main() {
             }
             let mut rep = c.report();
             rep["wall_s"] = json!(t0.elapsed().as_secs_f64());
+            rep["complete"] = json!(true);
+            let text = serde_json::to_string(&rep).unwrap();
+            match out {
+                Some(p) => std::fs::write(&p, text).expect("write report"),
+                None => println!("{}", text),
+            }
+        }
+        "coldstart" => {
+            // jlmon coldstart <PID> --seed S --out FILE : see props_c17::coldstart
+            let pid = args.get(2).cloned().unwrap_or_default();
+            let seed: u64 = arg_after(&args, "--seed").and_then(|s| s.parse().ok()).unwrap_or(0);
+            let lane = arg_after(&args, "--lane").unwrap_or_else(|| "unknown".into());
+            let out = arg_after(&args, "--out");
+            let mut c = ctx::Ctx::new(&pid, "quick", seed, seed & 0xffff, 1, &lane);
+            observe::install_panic_hook();
+            let (mon, ops): (String, &[&str]) = match own_ops(&pid) {
+                Some((_, ops)) => (format!("{}.cold-start", pid.to_lowercase()), ops),
+                None => (format!("{}.cold-start", pid.to_lowercase()), &[]),
+            };
+            props_c17::coldstart(&mut c, &mon, ops, 8);
+            let mut rep = c.report();
             rep["complete"] = json!(true);
             let text = serde_json::to_string(&rep).unwrap();
             match out {
